@@ -265,6 +265,7 @@ func init() {
 		NotDecided:  "everything else about what the regular expressions match (nesting, adjacency, greedy interaction)",
 		Rules: []Rule{
 			{"regex-lazy", "always-empty capture groups that are consumed", ruleRegexLazy},
+			{"nested-match", "a loop that skips from closing tag to closing tag to find the matching {{/each}} also searches for opening tags inside that loop (CFG cycles)", ruleNestedMatch},
 			{"regex-dotall-nested", "a pattern applied to text captured by a dot-all group is itself dot-all (regexp/syntax trees + data flow from the submatch)", ruleRegexDotallNested},
 			{"pass-order", "value-inserting passes precede no directive-interpreting pass", rulePassOrder},
 			{"closure-ret", "unknown variables stay", ruleClosureRet},
